@@ -331,6 +331,52 @@ pub fn grid(tier: Tier) -> Vec<Config> {
     v
 }
 
+/// In-process differential part: eviction policy none vs random with an unreachable limit, every
+/// history of the C01 alphabet up to the depth.
+pub fn policy_differential(tier: Tier, threads: usize) -> CheckOutcome {
+    let t0 = Instant::now();
+    let mut cfgs = props::seq_cfgs("C01", tier);
+    let a = cfgs.remove(0);
+    let mut b = cfgs.remove(0);
+    b.depth = a.depth;
+    let mut a = a;
+    if tier == Tier::Thorough {
+        a.depth = 6;
+        b.depth = 6;
+    }
+    let rep = crate::pair::explore_diff(&a, &b, threads);
+    let violations = rep
+        .found
+        .iter()
+        .map(|f| Violation {
+            signature: f.signature.clone(),
+            what: format!("eviction policy none vs random (limit 2^40, never reached): {}  after [{}]", f.detail, f.hist_text.join(" ; ")),
+            replay: json!({"engine": "c20-differential", "history_text": f.hist_text}),
+        })
+        .collect();
+    CheckOutcome {
+        property: "C20".into(),
+        tier: if tier == Tier::Quick { "quick".into() } else { "thorough".into() },
+        level: "exploration",
+        coverage: json!({
+            "evaluations": rep.executions,
+            "distinct_nontrivial": rep.states,
+            "states": rep.states,
+            "transitions": rep.transitions,
+            "traces_validated_against_impl": rep.executions,
+            "depth_completed": rep.depth_reached,
+            "capped": rep.capped,
+            "samples": rep.samples.iter().map(|s| json!({"differential_history": s})).collect::<Vec<_>>(),
+            "exhaustive": rep.capped.is_none(),
+            "rule": "BFS over all command histories of the C01 alphabet (incl. rejected and matching CAS stores) up to the depth, applied in-process to a store without eviction policy and to one with the random policy and a limit of 2^40: byte-identical responses and equal stores after every command",
+        }),
+        assumptions: vec![],
+        violations,
+        wall_s: t0.elapsed().as_secs_f64(),
+        machinery_error: rep.machinery_error,
+    }
+}
+
 pub fn check(tier: Tier) -> CheckOutcome {
     let t0 = Instant::now();
     let progs = programs(if tier == Tier::Quick { 2 } else { 3 });
